@@ -150,6 +150,16 @@ Theorem C05_sync_counters_partition : forall sp P,
 Proof. exact sync_counters_partition. Qed.
 Print Assumptions C05_sync_counters_partition.
 
+(* counters, positive part (killPods path, code after fix f21d364): every successful
+   kill -- whole job, task or pod target, any retain rule, any update function --
+   with a fresh pod view writes counters that partition the pods on the API server *)
+Theorem C05_kill_counters_partition : forall w rt tg u w',
+  kill_pods w rt tg u [] = (w', false, true) ->
+  v_pods w = w_pods w -> NoDup (pod_ids (w_pods w)) ->
+  (st_cnt (w_st w'), st_term (w_st w')) = tally (w_pods w').
+Proof. exact kill_counters_partition. Qed.
+Print Assumptions C05_kill_counters_partition.
+
 (* non-vacuity *)
 Example C05_fixed_on_f2_witness :
   exists w', step_req f2_world sync_req [] = (w', false, true) /\
